@@ -460,35 +460,41 @@ unsafe fn do_spawn<F: PreExec>(
     if child_pid == 0 {
         // Executing as child process
         drop(read_pipe);
-        if let Some(fd) = theirs.stdin.fd() {
-            rusl::unistd::dup2(fd, STDIN)?;
-        }
-        if let Some(fd) = theirs.stdout.fd() {
-            rusl::unistd::dup2(fd, STDOUT)?;
-        }
-        if let Some(fd) = theirs.stderr.fd() {
-            rusl::unistd::dup2(fd, STDERR)?;
-        }
-        if let Some(cwd) = cwd {
-            rusl::unistd::chdir(cwd)?;
-        }
-        if let Some(uid) = uid {
-            rusl::unistd::setuid(uid)?;
-        }
-        if let Some(gid) = gid {
-            rusl::unistd::setgid(gid)?;
-        }
-        if let Some(pgroup) = pgroup {
-            rusl::unistd::setpgid(0, pgroup)?;
-        }
-        for closure in closures {
-            closure.run()?;
-        }
-        let Err(e) = rusl::process::execve(bin, argv, envp) else {
-            // execve only returns on error.
-            unreachable_unchecked();
-        };
-        let code: [u8; 4] = if let Some(code) = e.code {
+        // Nothing in here may return from `do_spawn`, that would leave a second copy of the caller
+        // running: any failure up to and including the exec is reported through the pipe.
+        let child_res: Result<core::convert::Infallible> = (|| {
+            if let Some(fd) = theirs.stdin.fd() {
+                rusl::unistd::dup2(fd, STDIN)?;
+            }
+            if let Some(fd) = theirs.stdout.fd() {
+                rusl::unistd::dup2(fd, STDOUT)?;
+            }
+            if let Some(fd) = theirs.stderr.fd() {
+                rusl::unistd::dup2(fd, STDERR)?;
+            }
+            if let Some(cwd) = cwd {
+                rusl::unistd::chdir(cwd)?;
+            }
+            if let Some(uid) = uid {
+                rusl::unistd::setuid(uid)?;
+            }
+            if let Some(gid) = gid {
+                rusl::unistd::setgid(gid)?;
+            }
+            if let Some(pgroup) = pgroup {
+                rusl::unistd::setpgid(0, pgroup)?;
+            }
+            for closure in closures.iter_mut() {
+                closure.run()?;
+            }
+            let Err(e) = rusl::process::execve(bin, argv, envp) else {
+                // execve only returns on error.
+                unreachable_unchecked();
+            };
+            Err(e.into())
+        })();
+        let Err(e) = child_res;
+        let code: [u8; 4] = if let Error::Os { code, .. } = e {
             code.raw().to_be_bytes()
         } else {
             rusl::process::exit(1)
